@@ -642,6 +642,12 @@ func (s *Stream) ProcessSync(data map[string]any) (map[string]any, error) {
 func (s *Stream) enrichData(data map[string]any) (dataMap map[string]any, keep bool, err error) {
 	dataMap = data
 	if !s.hasJoin() {
+		if s.writesIntoRow() {
+			// The analytic/group-key injection below writes into the working map:
+			// work on a shallow copy (as enrichJoin does) so the caller's map is
+			// never mutated.
+			return copyRow(data), true, nil
+		}
 		return dataMap, true, nil
 	}
 	wm, k, jerr := s.enrichJoin(data)
@@ -652,6 +658,32 @@ func (s *Stream) enrichData(data map[string]any) (dataMap map[string]any, keep b
 		return dataMap, false, nil // INNER JOIN 无匹配：丢弃
 	}
 	return wm, true, nil
+}
+
+// writesIntoRow reports whether this query injects computed values into the
+// working row: analytic aliases / WHERE placeholders on the direct path
+// (evalAnalytic), function-expression group keys on the window path
+// (injectGroupKeyExprs). Plain queries keep the zero-copy path.
+func (s *Stream) writesIntoRow() bool {
+	if s.config.NeedWindow {
+		for _, gf := range s.config.GroupFields {
+			if strings.Contains(gf, "(") {
+				return true
+			}
+		}
+		return false
+	}
+	return len(s.config.AnalyticFields) > 0 || len(s.config.WhereAnalyticCalls) > 0
+}
+
+// copyRow returns a shallow copy of the row (nested values are shared, they are
+// only read).
+func copyRow(data map[string]any) map[string]any {
+	c := make(map[string]any, len(data)+2)
+	for k, v := range data {
+		c[k] = v
+	}
+	return c
 }
 
 // applyWhereAndAnalytic 按 WHERE 是否引用分析函数决定求值序，并应用 WHERE 过滤。
